@@ -20,6 +20,8 @@ PATCHES = {
     # (every built-in field is named by some patch: 'exactly the named built-in fields')
     "address_nat": lambda vc: {"address_nat": ("198.51.100.7", 40000), "snmp_enabled": False},
     "address_in": lambda vc: {"address_in": ("10.7.7.7", 50123)},
+    # a patch may set a member back to None (every record of the pre-state has a dmr_id)
+    "none_values": lambda vc: {"dmr_id": None, "callsign": None, "custom": vc.uint(8, "v2")},
     # a dynamic attribute the record ALREADY has (every record of the pre-state carries "seen"): patched again, with another value
     "existing_dynamic": lambda vc: {"seen": 1000 + vc.uint(8, "v3"), "firmware": vc.uint(16, "v2")},
 }
